@@ -315,10 +315,10 @@ Definition recip (e : sexpr) : bool :=
 
 Record Good (flip : bool) (e : sexpr) : Prop := {
   g_expr : ExprTok (Tk flip e) (V flip e) (D e);
-  g_term : is_add e = false ->
+  g_term : flip = false -> is_add e = false ->
            TermTok (Tk flip e) (V flip e) (D e) \/
            exists body, Tk flip e = TMinus :: body /\ Lin body (negV (V flip e)) (D e);
-  g_fac : (60 <= precf flip e)%Z -> recip e = false -> FacTok (Tk flip e) (V flip e) (D e);
+  g_fac : flip = false -> (60 <= precf flip e)%Z -> recip e = false -> FacTok (Tk flip e) (V flip e) (D e);
   g_atom : (70 <= precf flip e)%Z -> AtomTok (Tk flip e) (V flip e) (D e) }.
 
 Lemma SemEq_ext a v v' d : SemEq a v d -> (forall tab rho, d rho -> v tab rho = v' tab rho) -> SemEq a v' d.
@@ -348,7 +348,7 @@ Lemma Good_neg flip e body : (precf flip e < 60)%Z -> Tk flip e = TMinus :: body
 Proof.
   intros Hp HT HL. constructor; try (intros; lia).
   - rewrite HT. apply neg_expr; auto.
-  - intros _. right. exists body. auto.
+  - intros _ _. right. exists body. auto.
 Qed.
 
 Lemma precf_vals flip e : In (precf flip e) [40; 50; 60; 70; 1000]%Z.
@@ -376,11 +376,11 @@ Qed.
 
 (* parenthesize(item, P, strict=False) for P = Add or Mul precedence: a factor, provided the item's own
    precedence is not strictly between (a bare product or p/q inside a negative product) *)
-Lemma paren_mul_fac flip e P : Good flip e -> (P = P_ADD \/ P = P_MUL) ->
-  ((precf flip e <= P)%Z \/ ((60 <= precf flip e)%Z /\ recip e = false)) ->
-  FacTok (paren P (Tk flip e, precf flip e)) (V flip e) (D e).
+Lemma paren_mul_fac e P : Good false e -> (P = P_ADD \/ P = P_MUL) ->
+  ((precf false e <= P)%Z \/ ((60 <= precf false e)%Z /\ recip e = false)) ->
+  FacTok (paren P (Tk false e, precf false e)) (V false e) (D e).
 Proof.
-  intros G HP Hc. unfold paren. simpl. destruct (precf flip e <=? P)%Z eqn:E.
+  intros G HP Hc. unfold paren. simpl. destruct (precf false e <=? P)%Z eqn:E.
   - apply AtomTok_FacTok, ExprTok_paren, g_expr; auto.
   - apply Z.leb_gt in E. destruct Hc as [Hc|[Hc Hr]]; [lia|]. apply g_fac; auto.
 Qed.
@@ -711,13 +711,563 @@ Lemma eshape_neghalf flipx ex : eshape_of flipx ex = ENegHalf -> exists p, ex = 
 Proof.
   destruct ex; simpl; try discriminate.
   - destruct ((if flipx then (- z)%Z else z) =? -1)%Z; discriminate.
-  - destruct ((if flipx then (- p)%Z else p) =? 1)%Z eqn:E1, (q =? 2)%Z eqn:E2; simpl; try discriminate.
-    + destruct ((if flipx then (- p)%Z else p) =? -1)%Z eqn:E3; [|discriminate].
-      intros _. apply Z.eqb_eq in E2, E3. subst q. exists p. auto.
-    + destruct ((if flipx then (- p)%Z else p) =? -1)%Z; discriminate.
+  - destruct ((if flipx then (- p)%Z else p) =? 1)%Z eqn:E1; destruct (q =? 2)%Z eqn:E2; simpl; try discriminate;
+      destruct ((if flipx then (- p)%Z else p) =? -1)%Z eqn:E3; simpl; try discriminate.
+    intros _. apply Z.eqb_eq in E2, E3. subst q. exists p. auto.
 Qed.
 
 Lemma eshape_other_notint flipx ex : eshape_of flipx ex = EOther -> forall z, ex <> SInt z.
 Proof.
   intros H z ->. simpl in H. destruct ((if flipx then (- z)%Z else z) =? -1)%Z; discriminate.
+Qed.
+
+Lemma defined_pow rho b ex : defined rho (SPow b ex) ->
+  defined rho b /\ defined rho ex /\ ((forall z, ex <> SInt z) -> 0 < sem rho b).
+Proof.
+  simpl. intros (Hb & Hx & Hc). split; auto. split; auto. intros Hn.
+  destruct ex; auto. exfalso. eapply Hn. reflexivity.
+Qed.
+
+Lemma sem_pow_nonint rho b ex : (forall z, ex <> SInt z) -> sem rho (SPow b ex) = Rpower (sem rho b) (sem rho ex).
+Proof. intros Hn. destruct ex; try reflexivity. exfalso. eapply Hn. reflexivity. Qed.
+
+Lemma sem_pow_int rho b z : sem rho (SPow b (SInt z)) = powerRZ (sem rho b) z.
+Proof. reflexivity. Qed.
+
+Lemma sqrt_tab tab x : 0 < x -> apply_fun tab "sqrt" [x] = sqrt x.
+Proof. intros Hx. destruct tab; simpl; auto. rewrite Rabs_pos by auto. reflexivity. Qed.
+
+Lemma pow_tab tab x w : 0 < x -> apply_fun tab "pow" [x; w] = Rpower x w.
+Proof. intros Hx. simpl. rewrite Rabs_pos by auto. reflexivity. Qed.
+
+Lemma pow_val_eq b ex flipx tab rho :
+  defined rho (SPow b ex) -> (flipx = true -> negexp ex = true) ->
+  pow_val (eshape_of flipx ex) (V false b) (V flipx ex) (exp_int flipx ex) tab rho =
+  if flipx then / sem rho (SPow b ex) else sem rho (SPow b ex).
+Proof.
+  intros Hd Hneg. destruct (defined_pow _ _ _ Hd) as (Hdb & Hdx & Hpos).
+  unfold pow_val. change (V false b tab rho) with (sem rho b).
+  destruct (eshape_of flipx ex) eqn:E.
+  - destruct (eshape_half _ _ E) as (p & -> & Hp).
+    assert (Hx : 0 < sem rho b) by (apply Hpos; discriminate).
+    rewrite sqrt_tab by auto. rewrite sem_pow_nonint by discriminate. simpl sem.
+    destruct flipx.
+    + assert (p = -1)%Z by lia. subst p. rewrite Rpower_neghalf by auto.
+      unfold Rdiv. rewrite Rmult_1_l. rewrite Rinv_inv. reflexivity.
+    + subst p. rewrite Rpower_half by auto. reflexivity.
+  - destruct (eshape_neghalf _ _ E) as (p & -> & Hp).
+    assert (Hx : 0 < sem rho b) by (apply Hpos; discriminate).
+    rewrite sqrt_tab by auto. destruct flipx.
+    + assert (p = 1)%Z by lia. subst p. specialize (Hneg eq_refl). discriminate.
+    + subst p. rewrite sem_pow_nonint by discriminate. simpl sem. rewrite Rpower_neghalf by auto. reflexivity.
+  - destruct (eshape_negone _ _ E) as (z & -> & Hz). simpl in Hz. destruct flipx.
+    + assert (z = 1)%Z by lia. subst z. specialize (Hneg eq_refl). discriminate.
+    + subst z. rewrite sem_pow_int. rewrite powerRZ_m1. unfold Rdiv. rewrite Rmult_1_l. reflexivity.
+  - destruct (eshape_int _ _ E) as (z & -> & Hz). simpl exp_int. rewrite sem_pow_int. destruct flipx.
+    + specialize (Hneg eq_refl). simpl in Hneg. apply Z.ltb_lt in Hneg.
+      rewrite (powerRZ_neg_inv _ z) by auto. rewrite Rinv_inv. reflexivity.
+    + reflexivity.
+  - pose proof (eshape_other_notint _ _ E) as Hn.
+    assert (Hx : 0 < sem rho b) by (apply Hpos; auto).
+    rewrite pow_tab by auto. rewrite sem_pow_nonint by auto. unfold V. destruct flipx.
+    + rewrite Rpower_Ropp. reflexivity.
+    + reflexivity.
+Qed.
+
+Lemma D_pow_b b ex : sub (D (SPow b ex)) (D b).
+Proof. intros rho H. apply defined_pow in H. tauto. Qed.
+Lemma D_pow_x b ex : sub (D (SPow b ex)) (D ex).
+Proof. intros rho H. apply defined_pow in H. tauto. Qed.
+
+Lemma pow_nm sh tb pb te pe : nm (paren P_POW (tb, pb)) -> nm (pow_assemble sh (tb, pb) (te, pe)).
+Proof. intros H. destruct sh; simpl; auto. destruct (paren P_POW (tb, pb)); simpl in *; tauto. Qed.
+
+Lemma Good_pow b ex : Good false b -> Good false ex -> Good false (SPow b ex).
+Proof.
+  intros Gb Gx.
+  destruct (pow_general b ex false (D (SPow b ex)) Gb Gx (D_pow_b b ex) (D_pow_x b ex)) as [HL HF].
+  rewrite precf_false in *.
+  assert (HV : forall tab rho, D (SPow b ex) rho ->
+             pow_val (eshape_of false ex) (V false b) (V false ex) (exp_int false ex) tab rho = V false (SPow b ex) tab rho).
+  { intros tab rho Hd. rewrite pow_val_eq by (auto; discriminate). reflexivity. }
+  constructor.
+  - apply TermTok_ExprTok, Lin_TermTok. eapply Lin_ext; [exact HL|exact HV].
+  - intros _ _. left. apply Lin_TermTok. eapply Lin_ext; [exact HL|exact HV].
+  - intros _ _ Hr. unfold recip in Hr. unfold Tk. simpl pr. fold (Tk false b). fold (Tk false ex).
+    destruct (eshape_of false ex); try discriminate; (eapply FacTok_ext; [exact HF|exact HV]).
+  - unfold precf. simpl. unfold P_POW. lia.
+Qed.
+
+(* ------------------------------------------------------------------ Add nodes *)
+Definition TermInfo (tk : list token) (v : Val) (d : Dfn) : Prop :=
+  TermTok tk v d \/ exists body, tk = TMinus :: body /\ Lin body (negV v) d.
+
+Fixpoint sumV (l : list Val) : Val :=
+  fun tab rho => match l with [] => 0 | v :: r => v tab rho + sumV r tab rho end.
+
+Lemma split_sign_nm tk : nm tk -> split_sign tk = (false, tk).
+Proof. destruct tk as [|t tk]; simpl; [tauto|]. destruct t; simpl; try reflexivity. discriminate. Qed.
+
+Definition add_items (l : list (list token * Val)) := map (fun tv : list token * Val => add_item (fst tv, false)) l.
+
+Lemma okT_addtail l rest : okE rest -> okT (add_tail false (add_items l) ++ rest).
+Proof.
+  intros Hr. destruct l as [|[tk v] l]; simpl.
+  - apply okE_okT; auto.
+  - unfold add_item. simpl. destruct (split_sign tk) as [s body]. simpl. destruct s; reflexivity.
+Qed.
+
+Lemma add_chain d l : Forall (fun tv => TermInfo (fst tv) (snd tv) d) l -> forall rest, okE rest -> forall acc,
+  exists b, PER acc (add_tail false (add_items l) ++ rest) b rest /\
+            forall tab rho, d rho -> peval tab rho b = peval tab rho acc + sumV (map snd l) tab rho.
+Proof.
+  induction 1 as [|[tk v] l Hx Hl IH]; intros rest Hr acc.
+  - simpl. exists acc. split.
+    + apply PER_stop. destruct rest as [|t r]; simpl in *; auto. unfold badE in Hr. apply orb_false_iff in Hr. tauto.
+    + intros. ring.
+  - pose proof (okT_addtail l rest Hr) as Hok. simpl in Hx.
+    destruct Hx as [[Hm HT]|(body & -> & HL)].
+    + destruct (HT _ Hok) as (a & Ha & Hv).
+      destruct (IH rest Hr (PBin OAdd acc a)) as (b & Hb & Hbv). exists b. split.
+      * simpl. unfold add_item. simpl. rewrite split_sign_nm by auto. simpl. rewrite <- app_assoc.
+        eapply PER_add; eauto.
+      * intros tab rho Hd. rewrite Hbv by auto. simpl. rewrite Hv by auto. ring.
+    + destruct (Lin_TermTok _ _ _ HL) as [Hm HT].
+      destruct (HT _ Hok) as (a & Ha & Hv).
+      destruct (IH rest Hr (PBin OSub acc a)) as (b & Hb & Hbv). exists b. split.
+      * simpl. rewrite <- app_assoc. eapply PER_sub; eauto.
+      * intros tab rho Hd. rewrite Hbv by auto. simpl. rewrite Hv by auto. unfold negV. ring.
+Qed.
+
+Lemma add_join_expr d x l : Forall (fun tv => TermInfo (fst tv) (snd tv) d) (x :: l) ->
+  ExprTok (add_join false (map (fun tv : list token * Val => (fst tv, false)) (x :: l))) (sumV (map snd (x :: l))) d.
+Proof.
+  intros HF rest Hr. inversion HF as [|? ? Hx Hl]; subst.
+  pose proof (okT_addtail l rest Hr) as Hok.
+  unfold add_join. simpl map. rewrite map_map. fold (add_items l).
+  destruct x as [tk v]. simpl in Hx. destruct Hx as [[Hm HT]|(body & -> & HL)].
+  - destruct (HT _ Hok) as (a & Ha & Hv).
+    destruct (add_chain d l Hl rest Hr a) as (b & Hb & Hbv). exists b. split.
+    + unfold add_item. simpl. rewrite split_sign_nm by auto. simpl. rewrite <- app_assoc.
+      eapply PE_intro; eauto.
+    + intros tab rho Hd. rewrite Hbv by auto. simpl. rewrite Hv by auto. reflexivity.
+  - destruct (Lin_neg _ _ _ _ HL Hok) as (a & Ha & Hv).
+    destruct (add_chain d l Hl rest Hr a) as (b & Hb & Hbv). exists b. split.
+    + simpl. rewrite <- app_assoc. eapply PE_intro; eauto.
+    + intros tab rho Hd. rewrite Hbv by auto. simpl. rewrite Hv by auto. unfold negV. ring.
+Qed.
+
+Lemma defined_add rho ts : defined rho (SAdd ts) <-> Forall (defined rho) ts.
+Proof.
+  simpl. induction ts as [|t ts IH]; simpl.
+  - split; auto.
+  - rewrite IH. split; [intros [H1 H2]; constructor; auto | intros H; inversion H; auto].
+Qed.
+Lemma defined_mul rho neg fs : defined rho (SMul neg fs) <-> Forall (defined rho) fs.
+Proof.
+  simpl. induction fs as [|t ts IH]; simpl.
+  - split; auto.
+  - rewrite IH. split; [intros [H1 H2]; constructor; auto | intros H; inversion H; auto].
+Qed.
+
+Lemma sumV_sem ts tab rho : sumV (map (V false) ts) tab rho = sem rho (SAdd ts).
+Proof. simpl. induction ts as [|t ts IH]; simpl; auto. rewrite IH. reflexivity. Qed.
+
+Lemma Tk_add ts : Forall (fun t => is_add t = false) ts ->
+  Tk false (SAdd ts) =
+  add_join false (map (fun tv : list token * Val => (fst tv, false)) (map (fun t => (Tk false t, V false t)) ts)).
+Proof.
+  intros HF. unfold Tk at 1. cbn [pr]. f_equal. rewrite map_map. apply map_ext_in. intros t Hin. simpl.
+  rewrite Forall_forall in HF. rewrite (HF t Hin). reflexivity.
+Qed.
+
+Lemma Good_add ts : ts <> [] -> Forall (fun t => Good false t /\ is_add t = false) ts -> Good false (SAdd ts).
+Proof.
+  intros Hne HF. constructor.
+  - destruct ts as [|t0 ts]; [congruence|].
+    assert (HI : Forall (fun tv : list token * Val => TermInfo (fst tv) (snd tv) (D (SAdd (t0 :: ts))))
+                        (map (fun t => (Tk false t, V false t)) (t0 :: ts))).
+    { apply Forall_forall. intros tv Hin. apply in_map_iff in Hin. destruct Hin as (t & <- & Hin).
+      rewrite Forall_forall in HF. destruct (HF t Hin) as [G Ha]. simpl.
+      assert (S : sub (D (SAdd (t0 :: ts))) (D t)).
+      { intros rho Hd. unfold D in Hd. apply defined_add in Hd. rewrite Forall_forall in Hd. apply Hd. auto. }
+      destruct (g_term _ _ G eq_refl Ha) as [HT|(body & Hb & HL)].
+      - left. eapply TermTok_mono; eauto.
+      - right. exists body. split; auto. eapply Lin_mono; eauto. }
+    rewrite Tk_add by (eapply Forall_impl; [|exact HF]; simpl; tauto).
+    remember (t0 :: ts) as l eqn:El.
+    assert (HE : ExprTok (add_join false (map (fun tv : list token * Val => (fst tv, false)) (map (fun t => (Tk false t, V false t)) l)))
+                         (sumV (map snd (map (fun t => (Tk false t, V false t)) l))) (D (SAdd l))).
+    { subst l. apply (add_join_expr _ (Tk false t0, V false t0) (map (fun t => (Tk false t, V false t)) ts)). exact HI. }
+    intros rest Hr. destruct (HE rest Hr) as (a & Ha & Hv). exists a. split; auto.
+    intros tab rho Hd. rewrite Hv by auto. rewrite map_map. simpl snd.
+    change (sumV (map (fun x => V false x) l) tab rho) with (sumV (map (V false) l) tab rho).
+    rewrite sumV_sem. reflexivity.
+  - intros _ H. simpl in H. discriminate.
+  - intros _. unfold precf. simpl. unfold P_ADD. lia.
+  - unfold precf. simpl. unfold P_ADD. lia.
+Qed.
+
+(* ------------------------------------------------------------------ Mul nodes: one ordered factor *)
+Definition okPm (P : Z) : Prop := P = P_ADD \/ P = P_MUL.
+
+Definition wrapped (P : Z) (pw : (list token * Z) * bool) : list token :=
+  let s := paren P (fst pw) in if snd pw then [TLp] ++ s ++ [TRp] else s.
+
+Definition ItemGood (f : sexpr) : Prop :=
+  match item_of Tk f with
+  | MNum pt => forall P, okPm P -> FacTok (paren P pt) (V false f) (D f)
+  | MDen pt w => exists vd : Val, (forall P, okPm P -> FacTok (wrapped P (pt, w)) vd (D f)) /\
+                                  forall tab rho, D f rho -> V false f tab rho = / vd tab rho
+  | MRat p q => forall tab rho, V false f tab rho = IZR p / IZR q
+  end.
+
+Lemma negexp_shape ex : negexp ex = true ->
+  match eshape_of true ex with ENegHalf | ENegOne => False | _ => True end.
+Proof.
+  destruct ex; simpl; try discriminate; auto.
+  - intros H. apply Z.ltb_lt in H. destruct (- z =? -1)%Z eqn:E; auto. apply Z.eqb_eq in E. lia.
+  - intros H. apply Z.ltb_lt in H. destruct ((- p =? 1)%Z && (q =? 2)%Z); auto.
+    destruct (- p =? -1)%Z eqn:E; simpl; auto. apply Z.eqb_eq in E. lia.
+Qed.
+
+Lemma recip_negexp b ex : recip (SPow b ex) = true -> negexp ex = true.
+Proof.
+  unfold recip. destruct (eshape_of false ex) eqn:E; try discriminate; intros _.
+  - destruct (eshape_neghalf _ _ E) as (p & -> & Hp). subst p. reflexivity.
+  - destruct (eshape_negone _ _ E) as (z & -> & Hz). simpl in Hz. subst z. reflexivity.
+Qed.
+
+Lemma base_prec_ok b P : okPm P -> is_mul_or_pow b = false -> is_rat b = false ->
+  (prec b <= P)%Z \/ ((60 <= prec b)%Z /\ recip b = false).
+Proof.
+  intros HP Hm Hr. unfold okPm, P_ADD, P_MUL in HP.
+  destruct b; simpl in *; try discriminate; unfold P_ADD, P_MUL, P_FUNC, P_ATOM.
+  - left. lia.
+  - destruct (z <? 0)%Z; [left; lia | right; split; [lia|reflexivity]].
+  - right; split; [lia|reflexivity].
+  - right; split; [lia|reflexivity].
+  - right; split; [lia|reflexivity].
+  - right; split; [lia|reflexivity].
+Qed.
+
+Lemma ItemGood_pow b ex :
+  Good false b -> Good false ex -> (negexp ex = true -> Good true ex) ->
+  factor_ok (SPow b ex) = true -> ItemGood (SPow b ex).
+Proof.
+  intros Gb Gx Gxt Hok. pose proof (Good_pow b ex Gb Gx) as Gp.
+  unfold ItemGood, item_of. unfold factor_ok in Hok. simpl in Hok.
+  destruct (negexp ex) eqn:En.
+  - destruct (eshape_of false ex) eqn:Es.
+    + (* general denominator *)
+      destruct (is_unit_frac b) eqn:Eu; [discriminate|].
+      destruct (pow_general b ex true (D (SPow b ex)) Gb (Gxt eq_refl) (D_pow_b b ex) (D_pow_x b ex)) as [_ HF].
+      pose proof (negexp_shape ex En) as Hsh.
+      exists (pow_val (eshape_of true ex) (V false b) (V true ex) (exp_int true ex)). split.
+      * intros P [-> | ->]; unfold wrapped, paren; simpl;
+          destruct (eshape_of true ex); try tauto; exact HF.
+      * intros tab rho Hd. rewrite pow_val_eq by auto. rewrite Rinv_inv. reflexivity.
+    + destruct (is_unit_frac b) eqn:Eu; [discriminate|].
+      destruct (pow_general b ex true (D (SPow b ex)) Gb (Gxt eq_refl) (D_pow_b b ex) (D_pow_x b ex)) as [_ HF].
+      pose proof (negexp_shape ex En) as Hsh.
+      exists (pow_val (eshape_of true ex) (V false b) (V true ex) (exp_int true ex)). split.
+      * intros P [-> | ->]; unfold wrapped, paren; simpl;
+          destruct (eshape_of true ex); try tauto; exact HF.
+      * intros tab rho Hd. rewrite pow_val_eq by auto. rewrite Rinv_inv. reflexivity.
+    + (* x**-1: the base goes to the denominator *)
+      destruct (eshape_negone _ _ Es) as (z & -> & Hz). simpl in Hz. subst z.
+      exists (V false b). split.
+      * intros P HP. unfold wrapped. cbn [fst snd].
+        destruct (is_mul_or_pow b) eqn:Emp.
+        -- apply AtomTok_FacTok, ExprTok_paren. eapply ExprTok_mono; [|apply D_pow_b].
+           unfold paren. cbn [fst snd]. destruct (prec b <=? P)%Z.
+           ++ apply AtomTok_ExprTok, ExprTok_paren, g_expr, Gb.
+           ++ apply g_expr, Gb.
+        -- eapply FacTok_mono; [|apply D_pow_b]. rewrite <- (precf_false b). apply paren_mul_fac; auto.
+           rewrite precf_false. apply base_prec_ok; auto.
+           destruct (is_rat b); [discriminate|reflexivity].
+      * intros tab rho Hd. unfold V. rewrite sem_pow_int. rewrite powerRZ_m1. reflexivity.
+    + destruct (is_unit_frac b) eqn:Eu; [discriminate|].
+      destruct (pow_general b ex true (D (SPow b ex)) Gb (Gxt eq_refl) (D_pow_b b ex) (D_pow_x b ex)) as [_ HF].
+      pose proof (negexp_shape ex En) as Hsh.
+      exists (pow_val (eshape_of true ex) (V false b) (V true ex) (exp_int true ex)). split.
+      * intros P [-> | ->]; unfold wrapped, paren; simpl;
+          destruct (eshape_of true ex); try tauto; exact HF.
+      * intros tab rho Hd. rewrite pow_val_eq by auto. rewrite Rinv_inv. reflexivity.
+    + destruct (is_unit_frac b) eqn:Eu; [discriminate|].
+      destruct (pow_general b ex true (D (SPow b ex)) Gb (Gxt eq_refl) (D_pow_b b ex) (D_pow_x b ex)) as [_ HF].
+      pose proof (negexp_shape ex En) as Hsh.
+      exists (pow_val (eshape_of true ex) (V false b) (V true ex) (exp_int true ex)). split.
+      * intros P [-> | ->]; unfold wrapped, paren; simpl;
+          destruct (eshape_of true ex); try tauto; exact HF.
+      * intros tab rho Hd. rewrite pow_val_eq by auto. rewrite Rinv_inv. reflexivity.
+  - (* numerator *)
+    intros P HP.
+    assert (Hr : recip (SPow b ex) = false).
+    { destruct (recip (SPow b ex)) eqn:Er; auto. apply recip_negexp in Er. congruence. }
+    pose proof (g_fac _ _ Gp eq_refl ltac:(unfold precf; simpl; unfold P_POW; lia) Hr) as HF.
+    unfold paren. cbn [fst snd]. destruct (P_POW <=? P)%Z eqn:E.
+    + apply Z.leb_le in E. destruct HP as [-> | ->]; unfold P_POW, P_ADD, P_MUL in E; lia.
+    + exact HF.
+Qed.
+
+Lemma ItemGood_other f : Good false f -> is_mul f = false -> (forall b ex, f <> SPow b ex) -> ItemGood f.
+Proof.
+  intros G Hm Hp. unfold ItemGood.
+  assert (Hgen : (prec f <= P_ADD)%Z \/ (70 <= prec f)%Z ->
+                 forall P, okPm P -> FacTok (paren P (Tk false f, prec f)) (V false f) (D f)).
+  { intros Hc P HP. rewrite <- (precf_false f). apply paren_mul_fac; auto. rewrite precf_false.
+    destruct Hc as [Hc|Hc].
+    - left. destruct HP as [-> | ->]; unfold P_ADD, P_MUL in *; lia.
+    - right. split; [lia|]. destruct f; try reflexivity. exfalso. eapply Hp. reflexivity. }
+  destruct f; cbv beta iota delta [item_of]; try discriminate.
+  - apply Hgen. left. simpl. lia.
+  - exfalso. eapply Hp. reflexivity.
+  - intros tab rho. unfold V. simpl. unfold Rdiv. rewrite Rinv_1. ring.
+  - intros tab rho. reflexivity.
+  - apply Hgen. right. simpl. unfold P_ATOM. lia.
+  - apply Hgen. right. simpl. unfold P_FUNC. lia.
+  - apply Hgen. right. simpl. unfold P_ATOM. lia.
+  - apply Hgen. right. simpl. unfold P_ATOM. lia.
+Qed.
+
+Lemma num_fac P z d : okPm P -> FacTok (paren P (num_tokens z, prec (SInt z))) (fun _ _ => IZR z) d.
+Proof.
+  intros HP. pose proof (paren_mul_fac (SInt z) P (Good_int false z) HP) as H.
+  eapply FacTok_mono; [apply H|].
+  - unfold precf, prec. destruct (z <? 0)%Z.
+    + left. destruct HP as [-> | ->]; unfold P_ADD, P_MUL; lia.
+    + right. split; [unfold P_ATOM; lia|reflexivity].
+  - intros rho _. exact I.
+Qed.
+
+Definition constV (x : R) : Val := fun _ _ => x.
+
+Lemma items_split P d fs : okPm P ->
+  Forall (fun f => ItemGood f /\ sub d (D f)) fs ->
+  exists la lb : list (list token * Val),
+    map fst la = map (paren P) (mul_a (map (item_of Tk) fs)) /\ FTs la d /\
+    map fst lb = map (wrapped P) (mul_b (map (item_of Tk) fs)) /\ FTs lb d /\
+    forall tab rho, d rho ->
+      prodV (map (V false) fs) tab rho = prodV (map snd la) tab rho * / prodV (map snd lb) tab rho.
+Proof.
+  intros HP. induction 1 as [|f fs [HI HS] _ IH].
+  - exists [], []. simpl. repeat split; try constructor. intros. rewrite Rinv_1. ring.
+  - destruct IH as (la & lb & Ea & Fa & Eb & Fb & Hprod).
+    unfold ItemGood in HI. simpl map. destruct (item_of Tk f) as [pt|pt w|p q] eqn:Ei.
+    + exists ((paren P pt, V false f) :: la), lb. simpl. rewrite Ea. repeat split; auto.
+      * constructor; auto. simpl. eapply FacTok_mono; [apply HI; auto|exact HS].
+      * intros tab rho Hd. rewrite Hprod by auto. ring.
+    + destruct HI as (vd & HF & Hv).
+      exists la, ((wrapped P (pt, w), vd) :: lb). simpl. rewrite Eb. repeat split; auto.
+      * constructor; auto. simpl. eapply FacTok_mono; [apply HF; auto|exact HS].
+      * intros tab rho Hd. change (sem rho f) with (V false f tab rho).
+        rewrite Hprod by auto. rewrite Hv by (apply HS; auto). rewrite Rinv_mult. ring.
+    + exists ((if (p =? 1)%Z then [] else [(paren P (num_tokens p, prec (SInt p)), constV (IZR p))]) ++ la),
+             ((if (q =? 1)%Z then [] else [(wrapped P ((num_tokens q, prec (SInt q)), false), constV (IZR q))]) ++ lb).
+      simpl mul_a. simpl mul_b. rewrite !map_app.
+      rewrite Ea, Eb. repeat split.
+      * destruct (p =? 1)%Z; reflexivity.
+      * apply Forall_app. split; auto. destruct (p =? 1)%Z; constructor; [|constructor]. simpl. apply num_fac; auto.
+      * destruct (q =? 1)%Z; reflexivity.
+      * apply Forall_app. split; auto. destruct (q =? 1)%Z; constructor; [|constructor]. simpl.
+        unfold wrapped. simpl. apply num_fac; auto.
+      * intros tab rho Hd. change (prodV (V false f :: map (V false) fs) tab rho) with (V false f tab rho * prodV (map (V false) fs) tab rho).
+        rewrite Hprod by auto. rewrite HI.
+        destruct (p =? 1)%Z eqn:E1; destruct (q =? 1)%Z eqn:E2; simpl;
+          try (apply Z.eqb_eq in E1; subst p); try (apply Z.eqb_eq in E2; subst q);
+          unfold Rdiv, constV; try rewrite Rinv_1; try rewrite Rinv_mult; ring.
+Qed.
+
+(* ------------------------------------------------------------------ Mul nodes: the assembled product *)
+Definition mul_body (P : Z) (items : list mitem) : list token :=
+  let a := match mul_a items with [] => [([TNum 1%N], P_ATOM)] | a0 :: ar => a0 :: ar end in
+  join [TStar] (map (paren P) a) ++ den_toks (map (wrapped P) (mul_b items)).
+
+Lemma mul_assemble_body neg items :
+  mul_assemble neg items = (if neg then [TMinus] else []) ++ mul_body (if neg then P_ADD else P_MUL) items.
+Proof. reflexivity. Qed.
+
+Lemma mul_body_Lin P d fs : okPm P ->
+  Forall (fun f => ItemGood f /\ sub d (D f)) fs ->
+  Lin (mul_body P (map (item_of Tk) fs)) (prodV (map (V false) fs)) d.
+Proof.
+  intros HP HF. destruct (items_split P d fs HP HF) as (la & lb & Ea & Fa & Eb & Fb & Hprod).
+  unfold mul_body. rewrite <- Eb.
+  destruct (mul_a (map (item_of Tk) fs)) as [|a0 ar] eqn:Ema.
+  - destruct la; [|discriminate].
+    assert (Hone : paren P ([TNum 1%N], P_ATOM) = [TNum 1%N]).
+    { unfold paren. simpl. destruct HP as [-> | ->]; reflexivity. }
+    simpl map. rewrite Hone.
+    pose proof (muldiv_Lin ([TNum 1%N], constV 1) [] lb d) as H. simpl map in H.
+    eapply Lin_ext; [apply H; auto|].
+    + constructor; [|constructor]. apply AtomTok_FacTok. exact (one_atom d).
+    + intros tab rho Hd. rewrite Hprod by auto. simpl. unfold constV. ring.
+  - destruct la as [|x la]; [discriminate|].
+    rewrite <- Ea.
+    eapply Lin_ext; [apply muldiv_Lin; auto|].
+    intros tab rho Hd. rewrite Hprod by auto. reflexivity.
+Qed.
+
+Lemma prodV_sem fs tab rho : prodV (map (V false) fs) tab rho = prod_list (map (sem rho) fs).
+Proof. induction fs as [|f fs IH]; simpl; auto. rewrite IH. reflexivity. Qed.
+
+Lemma D_mul_sub neg fs : Forall (fun f => sub (D (SMul neg fs)) (D f)) fs.
+Proof.
+  apply Forall_forall. intros f Hin rho Hd. unfold D in Hd. apply defined_mul in Hd.
+  rewrite Forall_forall in Hd. apply Hd. exact Hin.
+Qed.
+
+Lemma items_for neg fs : Forall ItemGood fs ->
+  Forall (fun f => ItemGood f /\ sub (D (SMul neg fs)) (D f)) fs.
+Proof.
+  intros H. pose proof (D_mul_sub neg fs) as H2. rewrite Forall_forall in *. intros f Hin. split; auto.
+Qed.
+
+Lemma Tk_mul_false neg fs : Tk false (SMul neg fs) = mul_assemble neg (map (item_of Tk) fs).
+Proof. destruct neg; reflexivity. Qed.
+
+Lemma Good_mul_false neg fs : Forall ItemGood fs -> Good false (SMul neg fs).
+Proof.
+  intros HI. pose proof (items_for neg fs HI) as HF.
+  destruct neg.
+  - pose proof (mul_body_Lin P_ADD _ fs (or_introl eq_refl) HF) as HL.
+    apply Good_neg with (body := mul_body P_ADD (map (item_of Tk) fs)).
+    + unfold precf. simpl. unfold P_ADD. lia.
+    + rewrite Tk_mul_false, mul_assemble_body. reflexivity.
+    + eapply Lin_ext; [exact HL|]. intros tab rho Hd. rewrite prodV_sem. unfold negV, V. simpl. ring.
+  - pose proof (mul_body_Lin P_MUL _ fs (or_intror eq_refl) HF) as HL.
+    apply Good_term.
+    + unfold precf. simpl. unfold P_MUL. lia.
+    + rewrite Tk_mul_false, mul_assemble_body. simpl app. apply Lin_TermTok.
+      eapply Lin_ext; [exact HL|]. intros tab rho Hd. rewrite prodV_sem. unfold V. simpl. ring.
+Qed.
+
+Lemma Good_mul_true fs : fs <> [] -> Forall ItemGood fs -> (forall f, fs = [f] -> Good false f) ->
+  Good true (SMul true fs).
+Proof.
+  intros Hne HI Hs. destruct fs as [|f [|f2 fs]]; [congruence| |].
+  - (* -f : the negated exponent is f itself *)
+    pose proof (Hs f eq_refl) as G.
+    assert (S : sub (D (SMul true [f])) (D f)).
+    { pose proof (D_mul_sub true [f]) as H. inversion H; auto. }
+    assert (HV : forall tab rho, V false f tab rho = V true (SMul true [f]) tab rho).
+    { intros. unfold V. simpl. ring. }
+    constructor.
+    + change (Tk true (SMul true [f])) with (Tk false f).
+      intros rest Hr. destruct (g_expr _ _ G rest Hr) as (a & Ha & Hv). exists a. split; auto.
+      intros tab rho Hd. rewrite Hv by (apply S; auto). apply HV.
+    + intros H; discriminate.
+    + intros H; discriminate.
+    + intros Hp. change (Tk true (SMul true [f])) with (Tk false f).
+      change (precf true (SMul true [f])) with (prec f) in Hp. rewrite <- precf_false in Hp.
+      eapply AtomTok_ext; [eapply AtomTok_mono; [apply (g_atom _ _ G Hp)|exact S]|]. intros. apply HV.
+  - pose proof (items_for true _ HI) as HF.
+    pose proof (mul_body_Lin P_MUL _ _ (or_intror eq_refl) HF) as HL.
+    assert (HT : TermTok (Tk true (SMul true (f :: f2 :: fs))) (V true (SMul true (f :: f2 :: fs))) (D (SMul true (f :: f2 :: fs)))).
+    { change (Tk true (SMul true (f :: f2 :: fs))) with (mul_assemble false (map (item_of Tk) (f :: f2 :: fs))).
+      rewrite mul_assemble_body. simpl app. apply Lin_TermTok.
+      eapply Lin_ext; [exact HL|]. intros tab rho Hd. rewrite prodV_sem. unfold V. simpl. ring. }
+    constructor.
+    + apply TermTok_ExprTok. exact HT.
+    + intros H; discriminate.
+    + intros H; discriminate.
+    + unfold precf. simpl. unfold P_MUL. lia.
+Qed.
+
+(* ------------------------------------------------------------------ the mutual induction *)
+Definition P_all (e : sexpr) : Prop :=
+  wf e = true -> Good false e /\ (negexp e = true -> Good true e) /\ (factor_ok e = true -> ItemGood e).
+
+Lemma forallb_Forall {A} (p : A -> bool) l : forallb p l = true -> Forall (fun x => p x = true) l.
+Proof. intros H. apply Forall_forall. apply forallb_forall. exact H. Qed.
+
+Theorem good_all : forall e, P_all e.
+Proof.
+  induction e using sexpr_ind'; red; intros Hwf.
+  - (* Add *)
+    simpl in Hwf. apply andb_true_iff in Hwf. destruct Hwf as [Hne Hall].
+    apply forallb_Forall in Hall.
+    assert (G : Good false (SAdd ts)).
+    { apply Good_add.
+      - destruct ts; [discriminate|congruence].
+      - rewrite Forall_forall in *. intros t Hin. specialize (H t Hin). specialize (Hall t Hin). simpl in Hall.
+        apply andb_true_iff in Hall. destruct Hall as [Hw Ha]. destruct (H Hw) as (G & _). split; auto.
+        destruct (is_add t); [discriminate|reflexivity]. }
+    split; auto. split; [simpl; discriminate|]. intros _. apply ItemGood_other; auto. intros b ex; discriminate.
+  - (* Mul *)
+    simpl in Hwf. apply andb_true_iff in Hwf. destruct Hwf as [Hne Hall].
+    apply forallb_Forall in Hall.
+    assert (HI : Forall ItemGood fs).
+    { rewrite Forall_forall in *. intros f Hin. specialize (H f Hin). specialize (Hall f Hin). simpl in Hall.
+      apply andb_true_iff in Hall. destruct Hall as [Hw Hf]. destruct (H Hw) as (_ & _ & HIg). auto. }
+    split; [apply Good_mul_false; auto|]. split.
+    + simpl. intros ->. apply Good_mul_true; auto.
+      * destruct fs; [discriminate|congruence].
+      * intros f ->. inversion H; subst. simpl in Hall. inversion Hall; subst.
+        apply andb_true_iff in H4. destruct H4 as [Hw _]. destruct (H2 Hw) as (G & _). exact G.
+    + unfold factor_ok. simpl. discriminate.
+  - (* Pow *)
+    simpl in Hwf. apply andb_true_iff in Hwf. destruct Hwf as [Hwb Hwx].
+    destruct (IHe1 Hwb) as (Gb & _ & _). destruct (IHe2 Hwx) as (Gx & Gxt & _).
+    split; [apply Good_pow; auto|]. split; [simpl; discriminate|].
+    intros Hok. apply ItemGood_pow; auto.
+  - (* Int *)
+    split; [apply Good_int|]. split; [intros _; apply Good_int|]. intros _.
+    apply ItemGood_other; [apply Good_int|reflexivity|intros b ex; discriminate].
+  - (* Rat *)
+    simpl in Hwf. apply Z.leb_le in Hwf.
+    split; [apply Good_rat; auto|]. split; [intros _; apply Good_rat; auto|]. intros _.
+    apply ItemGood_other; [apply Good_rat; auto|reflexivity|intros b ex; discriminate].
+  - (* Sym *)
+    simpl in Hwf. assert (Hs : String.eqb s "E" = false) by (destruct (String.eqb s "E"); [discriminate|reflexivity]).
+    split; [apply Good_sym; auto|]. split; [simpl; discriminate|]. intros _.
+    apply ItemGood_other; [apply Good_sym; auto|reflexivity|intros b ex; discriminate].
+  - (* Fun *)
+    simpl in Hwf. apply andb_true_iff in Hwf. destruct Hwf as [Hk Ha].
+    destruct args as [|a [|a2 args]]; try discriminate.
+    inversion H; subst. destruct (H2 Ha) as (Ga & _).
+    assert (G : Good false (SFun s [a])) by (apply Good_fun; auto).
+    split; auto. split; [simpl; discriminate|]. intros _.
+    apply ItemGood_other; [auto|reflexivity|intros b ex; discriminate].
+  - (* E *)
+    split; [apply Good_E|]. split; [simpl; discriminate|]. intros _.
+    apply ItemGood_other; [apply Good_E|reflexivity|intros b ex; discriminate].
+  - discriminate.
+Qed.
+
+(* ------------------------------------------------------------------ the theorems of C12 (token level) *)
+
+(* parenthesisation adequacy, level by level: whatever follows (rest), provided it does not start with a
+   token that would continue the production at that level, the printed tokens of e are consumed exactly
+   and the tree has e's value wherever e is defined *)
+Theorem parse_print_level e : wf e = true ->
+  (forall rest, okE rest -> exists a, PE (toks e ++ rest) a rest /\ SemEq a (V false e) (D e)) /\
+  (is_add e = false -> forall rest, okT rest ->
+     (exists a, PT (toks e ++ rest) a rest /\ SemEq a (V false e) (D e)) \/
+     (exists body a, toks e = TMinus :: body /\ PT (body ++ rest) a rest /\ SemEq a (negV (V false e)) (D e))) /\
+  ((60 <= prec e)%Z -> recip e = false -> forall rest, okP rest ->
+     exists a, PF (toks e ++ rest) a rest /\ SemEq a (V false e) (D e)) /\
+  ((70 <= prec e)%Z -> forall rest, okA rest ->
+     exists a, PA (toks e ++ rest) a rest /\ SemEq a (V false e) (D e)).
+Proof.
+  intros Hwf. destruct (good_all e Hwf) as (G & _ & _). repeat split.
+  - apply (g_expr _ _ G).
+  - intros Ha rest Hr. destruct (g_term _ _ G eq_refl Ha) as [[_ HT]|(body & Hb & HL)].
+    + left. apply HT; auto.
+    + right. destruct (Lin_TermTok _ _ _ HL) as [_ HT]. destruct (HT rest Hr) as (a & Ha' & Hv).
+      exists body, a. auto.
+  - intros Hp Hr. rewrite <- precf_false in Hp. destruct (g_fac _ _ G eq_refl Hp Hr) as [_ HF]. exact HF.
+  - intros Hp. rewrite <- precf_false in Hp. destruct (g_atom _ _ G Hp) as [_ HA]. exact HA.
+Qed.
+
+Theorem parse_print e : wf e = true ->
+  exists a, parse_tokens (toks e) = Some a /\
+            forall tab rho, defined rho e -> peval tab rho a = sem rho e.
+Proof.
+  intros Hwf. destruct (good_all e Hwf) as (G & _ & _).
+  destruct (g_expr _ _ G [] I) as (a & Ha & Hv). rewrite app_nil_r in Ha.
+  exists a. split.
+  - apply parse_tokens_complete. exact Ha.
+  - intros tab rho Hd. apply Hv. exact Hd.
 Qed.
